@@ -7,6 +7,7 @@ import (
 	"fmt"
 	"os"
 	"path/filepath"
+	"sort"
 	"strings"
 	"time"
 
@@ -237,24 +238,64 @@ func metaFilename(filename string) string {
 
 func (fs *filestore) Walk(ctx context.Context, bucket string, cb func(ctx context.Context, filename string, fInfo os.FileInfo) error) error {
 	root := filepath.Join(fs.gcsDir, bucket)
-	return filepath.Walk(root, func(path string, fInfo os.FileInfo, err error) error {
-		if strings.HasSuffix(path, metaExtention) {
-			// Ignore metadata files
-			return nil
+	fInfo, err := os.Lstat(root)
+	if err != nil {
+		if os.IsNotExist(err) {
+			return err
 		}
+		return fmt.Errorf("walk error at %s: %w", "", err)
+	}
+	if err := fs.walk(ctx, root, "", fInfo, cb); err != nil && err != filepath.SkipDir {
+		return err
+	}
+	return nil
+}
 
-		filename := strings.TrimPrefix(path, root)
-		filename = strings.TrimPrefix(filename, string(os.PathSeparator))
+// walk visits one file or directory and then, for a directory, everything below it, in ascending
+// order of object name. filepath.Walk cannot be used: it orders the entries of a directory by
+// their own names, which puts the objects below "a/" ahead of "a.txt" although "a.txt" < "a/b".
+// Ordering a sub-directory as its name followed by the separator gives the order of object names.
+func (fs *filestore) walk(ctx context.Context, path string, filename string, fInfo os.FileInfo, cb func(ctx context.Context, filename string, fInfo os.FileInfo) error) error {
+	if err := cb(ctx, filename, fInfo); err != nil || !fInfo.IsDir() {
+		return err
+	}
+
+	entries, err := os.ReadDir(path)
+	if err != nil {
+		if os.IsNotExist(err) {
+			return err
+		}
+		return fmt.Errorf("walk error at %s: %w", filename, err)
+	}
+	sortName := func(e os.DirEntry) string {
+		if e.IsDir() {
+			return e.Name() + "/"
+		}
+		return e.Name()
+	}
+	sort.Slice(entries, func(i, j int) bool { return sortName(entries[i]) < sortName(entries[j]) })
+
+	for _, e := range entries {
+		if strings.HasSuffix(e.Name(), metaExtention) {
+			// Ignore metadata files
+			continue
+		}
+		name := filepath.Join(filename, e.Name())
+		eInfo, err := e.Info()
 		if err != nil {
 			if os.IsNotExist(err) {
 				return err
 			}
-			return fmt.Errorf("walk error at %s: %w", filename, err)
+			return fmt.Errorf("walk error at %s: %w", name, err)
 		}
-
-		if err := cb(ctx, filename, fInfo); err != nil {
-			return err
+		if err := fs.walk(ctx, filepath.Join(path, e.Name()), name, eInfo, cb); err != nil {
+			if err != filepath.SkipDir {
+				return err
+			}
+			if !eInfo.IsDir() {
+				return nil // like filepath.Walk: skip the rest of this directory
+			}
 		}
-		return nil
-	})
+	}
+	return nil
 }
